@@ -5,6 +5,7 @@ expectation the generator computes itself."""
 import json
 
 from . import impl, asmrun
+from .p_c02 import trace_invariant
 from .gen import ProgramGen, render, Item
 from .insnrun import num
 
@@ -146,6 +147,9 @@ def run(ctx):
             if r.outcome != "ok" or r.base != expected:
                 ctx.violation("the load address is not the arithmetic value of the link expression", inp, expected=expected, observed=r.summary())
             else:
+                # every statement (of every file) lies at base + the bytes before it: the offsets the
+                # expectation was computed from are those of the image
+                trace_invariant(ctx, r, dict(inp, main_paths=[p for p, _ in files]), dict(files))
                 # every label keeps its offset: the image is the reference image relocated
                 for name, v in r.symbols.items():
                     if name.startswith(".internal"):
